@@ -1,7 +1,7 @@
 (* C05 -- every node carries a valid, nested, ordered and faithful source range.  Statements only; proofs in
    proofs/RangeProofs.v; see DESIGN.md section 6 C05. *)
 From Coq Require Import String.
-From MdIt Require Import Prims Tables Tree Render Block Inline Core Dump Dispatch RangeProofs.
+From MdIt Require Import Prims Tables Tree Render Block Inline Core Dump Dispatch RangeProofs BlockRangeDefs BlockSafeProofs.
 Local Open Scope string_scope.
 Local Open Scope list_scope.
 Local Open Scope N_scope.
@@ -67,6 +67,42 @@ Theorem C05_escape_selects_markup : forall st st' n, rule_escape st false = inr 
        source_pos_for st (i_pos st) = inr pa /\ source_pos_for st (i_pos st + n) = inr pb).
 Proof. exact escape_markup. Qed.
 
+(* THE BLOCK TREE (BlockSafeProofs, same invariant as the no-panic proof of C01): for every document (list of line texts),
+   every chain of block rules without the reference-definition rule, every limit and fuel -- every block node the block
+   pass returns carries a range (line a, offset) .. (line b, offset) whose ends are positions of the line texts
+   (offset <= length of that line), a <= b and on one line start offset <= end offset; the lines of every child lie
+   within the lines of its parent; siblings occupy strictly increasing, disjoint line ranges (kids_ok / blk_ok, file
+   BlockRangeDefs; nodes without a range -- the placeholders of inline content -- are skipped).  Containers (quote,
+   list, list item, tight-list flattening) included.  In absolute offsets this is validity, nesting and order at line
+   granularity.  NOT covered: nesting of the start offset within one line, the inline nodes, the reference rule. *)
+Theorem C05_block_ranges : forall fuel cfg texts refs root' refs',
+  Forall (fun r => r <> R_REF) (bc_chain cfg) ->
+  block_parse fuel cfg texts (mk KRoot None []) refs = inr (root', refs') ->
+  kids_ok texts 0 (length texts) (n_children root').
+Proof. exact block_parse_ranges. Qed.
+
+(* what kids_ok says about one node *)
+Theorem C05_block_range_meaning : forall tx lo hi k m a e cs,
+  blk_ok tx lo hi (Node k m a e cs) =
+  match m with
+  | None => cs = []
+  | Some (SRel la oa, SRel lb ob) =>
+    (lo <= la)%nat /\ (la <= lb)%nat /\ (lb < hi)%nat /\ pos_ok tx la oa /\ pos_ok tx lb ob /\ (la = lb -> oa <= ob) /\
+    kids_ok tx la (S lb) cs
+  | _ => False
+  end.
+Proof. exact blk_ok_unfold. Qed.
+
+(* non-vacuity: a nested document goes through the block pass and yields several ranged blocks *)
+Example C05_block_ranges_nonvacuous :
+  match block_parse 20 (BCfg [R_CODE; R_FENCE; R_QUOTE; R_HR; R_LIST; R_HEADING; R_LHEADING; R_PARA] 100 [])
+          [bs "> - a"; bs ">   b"; bs ""; bs "1. c"; bs "   # d"; bs "---"] (mk KRoot None []) [] with
+  | inr (r, _) => map (fun c => n_map c) (n_children r) =
+                  [Some (SRel 0 0, SRel 1 5); Some (SRel 3 0, SRel 4 6); Some (SRel 5 0, SRel 5 3)]
+  | inl _ => False
+  end.
+Proof. vm_compute. reflexivity. Qed.
+
 Example C05_nonvacuous :
   let st := IState (bs "a &amp; \\* b") [(0, SRel 3 2)] (mk KRoot None []) 2 11 [] 0 0 [] [] in
   match rule_entity st false with
@@ -78,4 +114,6 @@ Print Assumptions C05_root_covers_input.
 Print Assumptions C05_text_created_faithful.
 Print Assumptions C05_text_extended_faithful.
 Print Assumptions C05_entity_selects_markup.
+Print Assumptions C05_block_ranges.
+Print Assumptions C05_block_range_meaning.
 Print Assumptions C05_escape_selects_markup.
